@@ -589,13 +589,13 @@ PROPS["C11"] = dict(
 
 PROPS["C02"] = dict(
     title="Acknowledged mode recovers from any bounded loss, duplication and reordering",
-    module="Cfdp.Props.C02x",
+    module="Cfdp.Props.C02y",
     namespace="Cfdp.Seg",
     theorems=["C02_round_completes", "C02_gaps_answered", "Cfdp.Recv.C02_finishes_when_complete", "Cfdp.Recv.C02_never_waits_complete", "Cfdp.Recv.C02_complete_is_success", "Cfdp.Recv.C02_size_check_passes", "Cfdp.Loop.C02_no_integrity_fault", "Cfdp.Net.C02_two_party_no_integrity_fault", "Cfdp.Loop.C02_recv_completes", "Cfdp.Loop.C02_send_completes", "Cfdp.Net.C02_two_party_completes",
               "Cfdp.Loop.C02_sender_answers_nak", "Cfdp.Loop.C02_receiver_recovers", "Cfdp.Loop.C02_recovery_round",
               "Cfdp.Loop.C02_full_round", "Cfdp.Loop.C02_full_round_after_wake", "Cfdp.Loop.C02_timer_round",
               "Cfdp.Loop.C02_lost_eof_round", "Cfdp.Loop.C02_lost_finished_round", "Cfdp.Loop.C02_lost_metadata_round",
-              "Cfdp.Loop.C02_lossy_rounds", "Cfdp.Loop.C02_lossy_rounds_fair"],
+              "Cfdp.Loop.C02_lossy_rounds", "Cfdp.Loop.C02_lossy_rounds_fair", "Cfdp.Loop.C02_two_party_nak_loop"],
     engines=["daemon", "recv", "send", "net"],
     design="§6 C02",
     technique="Lean 4 proofs of the recovery steps and of whole single-loss recovery rounds (lost data, EOF, Finished / ACK, Metadata) through both transaction models and the link, and of the receiver's NAK loop over any fair lossy schedule (any number of lossy rounds, limits derived from fairness); the whole transfer over a lossy schedule of both models is checked on two real daemons under a virtual clock with bounded fault plans",
@@ -643,10 +643,13 @@ PROPS["C02"] = dict(
                 "delivery): the NAK counter goes up by exactly one in a round that follows a fruitless one and starts again from zero when something new has arrived, the "
                 "inactivity counter starts again at every delivery and only counts expiries that lie after it (fair_sched; C02_lossy_rounds_fair; a three-round schedule whose "
                 "first round loses everything is the example). "
-                "PARTIAL: the loop theorem covers the data-recovery phase (EOF handshake done: only file data and Metadata reach the receiver); the lossy EOF / Finished / Metadata "
-                "handshakes are single-loss rounds (above), not loops; and that the sender's answers are what gets through is the per-round theorem C02_sender_answers_nak, not part of "
-                "the loop's statement (the loop quantifies over everything truthful the link may deliver). The composition of all of it over one lossy fair schedule of both models "
-                "is not one theorem. It is checked on the real code: the daemon engine runs acknowledged transfers between two real daemons with every kind of fault "
+                "And with the sender model at the other end of the link (Props/C02y.lean): in every round the NAK PDUs that get through - any part of what the receiver transmitted - "
+                "are handed to the sender, which stays able to answer (sq_round, invariant SQ) and whose transmissions are what the link may deliver, any part of them, in any order, "
+                "with duplicates; a round in which nothing is lost carries every missing byte (clean_round_carries); so any number of lossy rounds within the fairness condition with "
+                "one clean round among them ends with the delivery reported Finished / NoError / Complete / Retained (C02_two_party_nak_loop; example: the NAKs of the first round are all lost). "
+                "PARTIAL: the loop theorems cover the data-recovery phase (EOF handshake done: only file data and Metadata reach the receiver, only NAKs reach the sender); the lossy "
+                "EOF / Finished / Metadata handshakes are single-loss rounds (above), not loops; the sender's own timers are not events of the two-party loop (its inactivity limit while "
+                "it waits for NAKs is bounded by C03 / C17). The composition of all phases over one lossy fair schedule of both models is not one theorem. It is checked on the real code: the daemon engine runs acknowledged transfers between two real daemons with every kind of fault "
                 "plan below the limit and requires file identity, success at both users and termination of both transactions (oracles recovers, same_outcome, daemon_bounded); the net engine does the same on a real sender and a real receiver in lockstep with both Lean models (losses confined to a zero-time phase, then a loss-free link)."),
     level_note=DAEMON_NOTE + " " + RECV_SEND_NOTE,
     rule=("daemon engine: 40 (quick) / 400 (thorough) acknowledged transfers, files of 0, 1, seg-1, seg, seg+1, 3 seg, 5 seg+7 octets, segment 32/64/128, limit 3/4, timeouts 1-3 s, "
